@@ -96,11 +96,11 @@ func c20K2(c *Ctx) {
 		r.Disagree("C20 zones", err.Error(), nil)
 		return
 	}
-	tickDone := make(chan struct{}, 16)
+	tickDone := make(chan any, 16)
 	lib.VerifHandler = func(obj any, label string) {
 		if label == "cron:tick-done" {
 			select {
-			case tickDone <- struct{}{}:
+			case tickDone <- obj:
 			default:
 			}
 		}
@@ -150,7 +150,7 @@ func c20K2(c *Ctx) {
 
 // c20scenario runs one operation sequence on a fresh cron object; ok=false when the wall-clock minute
 // changed under it or a wait timed out (inconclusive, retried by the caller)
-func c20scenario(c *Ctx, z *c20zones, tickDone chan struct{}, idx int) (*c20scn, bool) {
+func c20scenario(c *Ctx, z *c20zones, tickDone chan any, idx int) (*c20scn, bool) {
 	r := c.R
 	rng := c.Rng
 	scn := &c20scn{civNeed: map[[2]int64]bool{}}
@@ -303,7 +303,15 @@ func c20scenario(c *Ctx, z *c20zones, tickDone chan struct{}, idx int) (*c20scn,
 		case 0, 1, 2, 3, 4:
 			zi := zis[rng.Intn(2)]
 			spec, text, valid := genSpec(zi)
-			err := cr.AddJob(gen.CronJob{Name: c20name(name), Spec: text, Location: z.loc[zi], Action: act})
+			err := func() (err error) {
+				defer func() {
+					if p := recover(); p != nil {
+						r.Violation("C20/parser-panic", fmt.Sprintf("AddJob panicked on spec %q: %v", text, p), map[string]interface{}{"spec": text})
+						err = fmt.Errorf("panic: %v", p)
+					}
+				}()
+				return cr.AddJob(gen.CronJob{Name: c20name(name), Spec: text, Location: z.loc[zi], Action: act})
+			}()
 			res := errName(err)
 			r.Count("k2.add." + res)
 			if !valid && err == nil {
@@ -360,10 +368,15 @@ func c20scenario(c *Ctx, z *c20zones, tickDone chan struct{}, idx int) (*c20scn,
 			baseG := runtime.NumGoroutine()
 			exp := expectSpool()
 			vc.TickNow()
-			select {
-			case <-tickDone:
-			case <-time.After(3 * time.Second):
-				return nil, false
+			// wait for the end of the timer function of this object (a stray run of an earlier object is ignored)
+			tmo := time.After(3 * time.Second)
+			for done := false; !done; {
+				select {
+				case o := <-tickDone:
+					done = o == vc.Obj()
+				case <-tmo:
+					return nil, false
+				}
 			}
 			vc.Stop()
 			deadline := time.Now().Add(3 * time.Second)
